@@ -301,10 +301,7 @@ class BadCalls(Analysis):
 class OvertlyBadEvals(Analysis):
     def analyze(self, context: AnalysisContext) -> Iterator[AnalysisResult]:
         for node in context.pickled.properties.non_setstate_calls:
-            if (
-                hasattr(node.func, "id")
-                and node.func.id in context.pickled.properties.likely_safe_imports
-            ):
+            if id(node) in context.pickled.properties.likely_safe_calls:
                 # if the call is to a constructor of an object imported from the Python
                 # standard library, it's probably okay
                 continue
